@@ -418,8 +418,11 @@ async fn read_half_timeline(ctx: &Ctx, seed: u64, id: usize) {
                         before.push(format!("{:?}", st));
                     }
                 }
-                before.dedup();
-                verdict = Some((format!("error:{}", before.join("+")), e.to_string()));
+                // cause class: what kinds of steps lay between the previous message and this one
+                let mut kinds: Vec<String> = before.clone();
+                kinds.sort();
+                kinds.dedup();
+                verdict = Some((format!("error:{}", kinds.join("+")), e.to_string()));
                 break;
             }
             Err(_) => {
